@@ -14,13 +14,13 @@ CHECKS = {
     ),
     'C02': (
         'proptest-generated shapes, cells and valid states vs independent area formulas (shoelace, slab-integrated disc union, |AxB|) — differential oracle',
-        "Exploration: 4e5 shapes incl. triple-overlap/containment/coincident trimers, 4e5 cells, ~3e5 oracle-valid states per quick run; score compared with N*area/|AxB| from the harness's own table, shape and lattice at rel 1e-9.",
+        "Exploration: 3e6 shapes incl. triple-overlap/containment/nearly coincident trimers, 2e6 cells, ~1.5e6 oracle-valid states, 1.5e3 optimisation histories (every score the optimiser saw, 1.5e6) and 6e4 shape-replacement cases per quick run; score compared with N*area/|AxB| from the harness's own table, shape and lattice at rel 1e-9.",
         'Trusted: slab integration of disc unions (checked against the 2-disc closed form, a grid estimate, and a 40-digit mpmath evaluation during development).',
         'DESIGN.md §2 C02',
     ),
     'C03': (
         'proptest-generated LJ crystals and re-description twins vs a once-per-pair lattice sum with geometric neighbour enumeration (differential + metamorphic)',
-        "Exploration: 3e5 states (quick) x optional twin (origin shifts, free shifts, 2-fold re-description, across-face); score vs minus the harness's lattice energy per molecule; uncut potential judged against the interval between the 3-shell and the converged sum.",
+        "Exploration: 6e5 states (quick) x optional twin (origin shifts, free shifts, 2-fold re-description, across-face) x optional shape replacement on the same state object; score vs minus the harness's lattice energy per molecule; uncut potential judged against the interval between the 3-shell and the converged sum.",
         "Trusted: pair energies come from the package's own LJ2::energy (C13 decides that law); harness places molecules and enumerates pairs. Known finding lj-beyond-3-shells accepted only as exact-sum-or-3-shell-sum.",
         'DESIGN.md §2 C03',
     ),
@@ -32,37 +32,37 @@ CHECKS = {
     ),
     'C05': (
         'proptest-generated optimiser configurations with kt_start=0 on scripted/landscape/real states; accept/reject history inferred from successive score() calls and judged against the deterministic kT=0 model (model-based history oracle)',
-        'Exploration: 3.75e4 optimiser runs per quick run (8e7 observed steps) over every combination of kt_finish/kt_ratio/steps/inner_steps/convergence/step size, synthetic and real states.',
+        'Exploration: 3.75e4 optimiser runs per quick run (8e7 observed steps) over every combination of kt_finish/kt_ratio/steps/inner_steps/convergence/step size, synthetic and real states (dilute and pre-compressed); judged by a trace model that admits exactly the histories C05 permits.',
         'Trusted: the trace model (one score() call per proposal); ambiguous steps excluded, never guessed.',
         'DESIGN.md §2 C05, §1.4',
     ),
     'C06': (
         'stateful scripted score functions (forced accept/reject sequences) + decision-agnostic trace model over proposal vectors; invariant over the history',
-        'Exploration: 2e4 adversarial scripts (4e7 steps) + 2e3 real-state runs per quick run; every proposal must derive from the proposal-or-previous state, the returned parameters must be the last accepted state.',
+        'Exploration: 2e4 adversarial scripts (4e7 steps; with and without convergence thresholds, starts inside and outside the bounds, step sizes up to 2.5) + 2e3 real-state runs (dilute and pre-compressed starts) per quick run; every proposal must derive from the proposal-or-previous state, the returned parameters must be the last accepted state.',
         'Trusted: trace model; the last-accepted clause uses only forced outcomes and only when all interior decisions were honoured.',
         'DESIGN.md §2 C06',
     ),
     'C07': (
         'scripted forced outcomes for the deterministic clauses + acceptance-frequency test (6-sigma binomial) of scripted worse moves at 12 (d,kT) pairs (statistical oracle)',
-        'Exploration: 1.5e4 deterministic scripts and 480 frequency trials of >= 4000 counted proposals per quick run (1e5 in thorough).',
+        'Exploration: 6e4 deterministic scripts and 240 frequency cases of 2e5 counted proposals each per quick run (2e6 in thorough) on a fixed grid and on generated d/kT in [0.02,4]: an absolute bias of ~0.7% (quick) / 0.2% (thorough) in the acceptance probability is resolved.',
         'Trusted: binomial test with stated false-alarm rate; ambiguous steps excluded independently of outcome.',
         'DESIGN.md §2 C07',
     ),
     'C08': (
         'proptest-generated start states and chains of 1..4 optimiser configurations; range/family invariants read from the JSON of every stage output',
-        "Exploration: 4e4 initial states and 2.5e3 chains (5e6 steps) per quick run; ranges taken from the statement, relative to each stage's input.",
+        "Exploration: 4e4 initial states and 2.5e3 chains (5e6 steps; step sizes up to 8) per quick run; ranges taken from the statement, relative to each stage's input.",
         'Trusted: JSON field names of the serialised state; handing the state on through serde_json::Value.',
         'DESIGN.md §2 C08',
     ),
     'C09': (
         'proptest-generated task batches run alone vs on rayon pools of generated sizes/orders, and the real CLI under RAYON_NUM_THREADS 1..16 (differential against the sequential reference)',
-        'Exploration: 300 batches (1.2e4 task executions) on pools of 1..32 threads and 120 CLI argument sets x 3-4 thread counts per quick run. Schedules are sampled, not enumerated.',
+        'Exploration: 300 batches (1.2e4 task executions) on pools of 1..16 threads, 120 CLI argument sets x 3-4 thread counts (a quarter in a near-tie regime) and 2e3 parallel best-of-n selections over near-tie chains per quick run. Schedules are sampled, not enumerated.',
         'Trusted: byte comparison of serde_json output. A race needing one specific interleaving can be missed (stated in DESIGN.md §5).',
         'DESIGN.md §2 C09',
     ),
     'C10': (
         'proptest-generated CLI argument sets run for k=1..kmax replications; hook-reported replica scores, prefix monotonicity, label/shape comparison with the ITA table and documented constructors; generated state vectors for max()/cmp()',
-        'Exploration: 400 argument sets (~1200 CLI runs) and 2e4 ordering vectors per quick run.',
+        'Exploration: 400 argument sets (~1200 CLI runs) and 2e4 ordering vectors (independent, tied and nearly tied scores) per quick run.',
         'Trusted: verif-hooks line per replica (additive, guarded); harness table/constructors.',
         'DESIGN.md §2 C10, §1.6',
     ),
@@ -80,7 +80,7 @@ CHECKS = {
     ),
     'C13': (
         'proptest-generated particle pairs and molecules vs the closed-form shifted 12-6 law, with symmetry, rigid-motion and additivity relations (differential + metamorphic)',
-        'Exploration: 1.8e6 cases per quick run incl. r within 1e-9 of the cutoff, unlike pairs, molecules of 1..5 particles.',
+        'Exploration: 1.4e7 cases per quick run incl. r within 1e-9 of the cutoff, unlike pairs, both operator forms of the rigid motion, molecules of 1..5 particles.',
         'Trusted: closed form; no mixing rule is prescribed for unlike pairs, only symmetry.',
         'DESIGN.md §2 C13',
     ),
@@ -104,25 +104,25 @@ CHECKS = {
     ),
     'C17': (
         'grammar-based string generation with an AST evaluator as reference + arbitrary/mutated strings with a no-panic oracle; libFuzzer target with the same oracles in the thorough tier',
-        'Exploration: 3e5 grammar strings and 3e5 arbitrary strings per quick run (1e7 + coverage-guided fuzzing in thorough).',
+        'Exploration: 3e6 grammar strings and 3e6 arbitrary strings per quick run (6e7 each + up to 2e7 libFuzzer executions with the same oracles in thorough).',
         "Trusted: the AST evaluator; the grammar never puts spaces inside d/d' or between a sign and its term.",
         'DESIGN.md §2 C17',
     ),
     'C18': (
         'scripted downhill proposals sized to the expected temperature of each inner loop; per-loop temperature inferred from acceptance frequencies with 6-sigma intervals (statistical, model-based)',
-        'Exploration: 3e3 schedules per quick run (1..12 loops of 1000/4000 steps), ratio and finish paths, kt_start=0.',
+        'Exploration: 3e3 schedules per quick run (1..12 loops of 1000/4000 steps), ratio and finish paths, kt_start=0, with and without a (non-terminating) convergence threshold.',
         'Trusted: binomial intervals; every convention within one cooling step of kt_finish is accepted.',
         'DESIGN.md §2 C18',
     ),
     'C19': (
         "scripted rejection patterns per loop on synthetic states + real states behind a probe; every proposal's distance from its base compared with max_step*range/2 (invariant over the history)",
-        'Exploration: 1.2e4 scripted runs (3.5e7 steps) + 1.5e3 real runs per quick run, 1..30 loops, ranges 1e-3..1e3.',
+        'Exploration: 1.2e4 scripted runs (3.5e7 steps) + 1.5e3 real runs per quick run, 1..30 loops, ranges 1e-3..1e3, max_step_size 0 and 1e-7..1.',
         'Trusted: trace model; the smaller candidate distance is used so a move is never over-reported.',
         'DESIGN.md §2 C19',
     ),
     'C20': (
         'proptest-generated configurations incl. zero/non-multiple step counts, paired runs with/without convergence compared bit for bit; grammar-generated CLI argument vectors (valid and invalid) with an exit-status/no-panic oracle',
-        'Exploration: 1.2e4 library runs (paired) and 320 CLI invocations per quick run.',
+        'Exploration: 8e4 library runs (paired with their no-threshold reference) and 640 CLI invocations per quick run.',
         'Trusted: proposal counting via parameter changes; a CLI hang is reported as inconclusive, not as a violation.',
         'DESIGN.md §2 C20',
     ),
